@@ -35,6 +35,7 @@ type c04Config struct {
 	RefuseEHLO bool     `json:"refuse_ehlo,omitempty"`
 	DSN        string   `json:"dsn,omitempty"` // "" | default | hdrs-never | full-success-delay
 	NoNoop     bool     `json:"no_noop,omitempty"`
+	Multiline  bool     `json:"multiline_replies,omitempty"` // the server sends every reply as a multi-line reply
 	Msgs       []c04Msg `json:"msgs"`
 	MaxDev     int      `json:"max_deviations"`
 }
@@ -73,6 +74,7 @@ func runC04Case(r *ev.Run, c c04Case) c04Result {
 			RefuseEHLO:       cfg.RefuseEHLO,
 			ProbePreGreeting: true,
 			AllowUTF8:        true,
+			Multiline:        cfg.Multiline,
 			Caps: func(ehloN int, tlsOn bool) []string {
 				if tlsOn {
 					if cfg.NoCapsTLS {
@@ -324,6 +326,8 @@ func c04Configs(thorough bool) []c04Config {
 		{Name: "starttls-mandatory", Caps: []string{"STARTTLS", "8BITMIME"}, CapsTLS: []string{"8BITMIME", "DSN"}, TLS: "mandatory", DSN: "hdrs-never", Msgs: []c04Msg{m(qp, 1)}, MaxDev: 1},
 		{Name: "auth-plain", Caps: []string{"AUTH PLAIN LOGIN", "8BITMIME"}, TLS: "none", Auth: "PLAIN", Msgs: []c04Msg{m(qp, 1), m(qp, 1)}, MaxDev: 1},
 		{Name: "auth-login", Caps: []string{"AUTH LOGIN", "DSN"}, TLS: "none", Auth: "LOGIN", Msgs: []c04Msg{m(qp, 2)}, MaxDev: 1},
+		{Name: "multiline-2x2", Caps: all, TLS: "none", Multiline: true, Msgs: []c04Msg{m(qp, 2), m(e8, 2)}, MaxDev: 1},
+		{Name: "multiline-starttls-auth", Caps: []string{"STARTTLS", "AUTH PLAIN", "8BITMIME"}, CapsTLS: []string{"AUTH PLAIN", "DSN"}, TLS: "mandatory", Auth: "PLAIN", Multiline: true, DSN: "default", Msgs: []c04Msg{m(qp, 1), m(qp, 1)}, MaxDev: 1},
 	}
 	for i := range cfgs {
 		cfgs[i].MaxDev = 2
